@@ -347,6 +347,19 @@ pub fn gen_formula(rng: &mut Rng, opts: &FormOpts, props: &[String]) -> F {
     g.go(size, &mut scope)
 }
 
+/// Generate a batch of closed formulae that share sub-formulae (also up to renaming): the pool of
+/// re-insertable sub-trees persists across the formulae of the batch.
+pub fn gen_batch(rng: &mut Rng, opts: &FormOpts, props: &[String], count: usize) -> Vec<F> {
+    let mut g = Gen { rng, opts, props, pool: Vec::new() };
+    let mut out = Vec::new();
+    for _ in 0..count {
+        let size = g.rng.range(2, opts.max_size);
+        let mut scope = Vec::new();
+        out.push(g.go(size, &mut scope));
+    }
+    out
+}
+
 /// Generate a formula that may have free variables among `scope`.
 pub fn gen_open_formula(rng: &mut Rng, opts: &FormOpts, props: &[String], scope: &[String]) -> F {
     let size = rng.range(1, opts.max_size);
